@@ -32,7 +32,12 @@ class FaultMulti(Exception):        # cannot be rebuilt from a single string
         super().__init__(a, b, c)
 
 
-FAULTS = {"one": lambda: FaultA("backend-fault"), "empty": lambda: FaultEmpty(),
+class FaultPicky(Exception):        # validates its argument: rebuilding it from a text raises ValueError, not TypeError
+    def __init__(self, code):
+        super().__init__("backend-fault: quota of %d bytes exceeded" % int(code))
+
+
+FAULTS = {"one": lambda: FaultA("backend-fault"), "empty": lambda: FaultEmpty(), "picky": lambda: FaultPicky(4096),
           "multi": lambda: FaultMulti("backend-fault", 2, 3), "unicode": lambda: UnicodeEncodeError("utf-8", "x", 0, 1, "backend-fault")}
 
 
